@@ -18,6 +18,9 @@ ArgsModes(args, i, n, e, cfg) ==
     IF i > Len(args) THEN TRUE
     ELSE LET ae == IF n.k = "macro" /\ Has(cfg.textmacros, n.name) THEN Exp(FALSE, <<>>)
                    ELSE IF n.k = "macro" /\ Has(cfg.mathmacros, n.name) THEN Exp(TRUE, <<>>)
+                   \* a single argument slot declared text-like / math (user-defined macros): only that slot
+                   ELSE IF n.k = "macro" /\ Has(cfg.argmodes, <<n.name, i, "text">>) THEN Exp(FALSE, <<>>)
+                   ELSE IF n.k = "macro" /\ Has(cfg.argmodes, <<n.name, i, "math">>) THEN Exp(TRUE, <<>>)
                    ELSE e
          IN SeqModes(args[i].ns, 1, ae, cfg) /\ ArgsModes(args, i + 1, n, e, cfg)
 NodeModes(n, e, cfg) ==
